@@ -102,4 +102,52 @@ theorem step_keeps (s s' : St) (st : Stmt) (x : Nat) (h1 : isMutate st = false) 
   | write y => cases hs; exact ⟨Nat.le_refl _, rfl, fun _ _ => rfl⟩
   | ret ys => cases hs; exact ⟨Nat.le_refl _, rfl, fun _ _ => rfl⟩
 
+theorem run_keeps (x : Nat) (mid : List Stmt) (hmid : ∀ st, st ∈ mid → isMutate st = false ∧ bindsVar x st = false)
+    (s s' : St) (hr : Run s mid s') :
+    s.next ≤ s'.next ∧ s'.env x = s.env x ∧ ∀ l, l < s.next → s'.heap l = s.heap l := by
+  induction hr with
+  | nil => exact ⟨Nat.le_refl _, rfl, fun _ _ => rfl⟩
+  | @cons _ _ _ st rest hstep _ ih =>
+    have h1 := hmid st (List.mem_cons_self ..)
+    obtain ⟨a, b, c⟩ := step_keeps _ _ st x h1.1 h1.2 hstep
+    obtain ⟨a', b', c'⟩ := ih (fun st' hm => hmid st' (List.mem_cons_of_mem _ hm))
+    refine ⟨by omega, by rw [b', b], ?_⟩
+    intro l hl; rw [c' l (by omega), c l hl]
+
+theorem scan_cons (x : Nat) (st : Stmt) (rest : List Stmt) (hnr : ∀ xs, st ≠ .ret xs)
+    (h : scanToRet x (st :: rest) = some true) :
+    (isMutate st = false ∧ bindsVar x st = false) ∧ scanToRet x rest = some true := by
+  have key : scanToRet x (st :: rest) =
+      if isMutate st || bindsVar x st then (match scanToRet x rest with | some _ => some false | none => none)
+      else scanToRet x rest := by
+    cases st <;> first | rfl | exact absurd rfl (hnr _)
+  rw [key] at h
+  by_cases hd : (isMutate st || bindsVar x st) = true
+  · rw [if_pos hd] at h
+    cases hq : scanToRet x rest <;> simp [hq] at h
+  · rw [if_neg hd] at h
+    simp only [Bool.or_eq_true, not_or, Bool.not_eq_true] at hd
+    exact ⟨hd, h⟩
+
+theorem scan_split (x : Nat) (rest : List Stmt) (h : scanToRet x rest = some true) :
+    ∃ mid xs post, rest = mid ++ Stmt.ret xs :: post ∧ x ∈ xs ∧
+      ∀ st, st ∈ mid → isMutate st = false ∧ bindsVar x st = false := by
+  induction rest with
+  | nil => simp [scanToRet] at h
+  | cons st rest ih =>
+    by_cases hr : ∃ xs, st = .ret xs
+    · obtain ⟨xs, rfl⟩ := hr
+      simp only [scanToRet] at h
+      by_cases hc : xs.contains x = true
+      · exact ⟨[], xs, rest, rfl, by simpa using hc, fun _ hm => by cases hm⟩
+      · rw [if_neg hc] at h; cases h
+    · have hnr : ∀ xs, st ≠ .ret xs := fun xs e => hr ⟨xs, e⟩
+      obtain ⟨hst, hrest⟩ := scan_cons x st rest hnr h
+      obtain ⟨mid, xs, post, e, hx, hm⟩ := ih hrest
+      refine ⟨st :: mid, xs, post, by simp [e], hx, ?_⟩
+      intro st' hst'
+      rcases List.mem_cons.mp hst' with rfl | h'
+      · exact hst
+      · exact hm st' h'
+
 end Pms.Purity
